@@ -17,6 +17,72 @@ NOTE = ("Trusted base: CPython ast; oslo.db enginefacade scope joining and "
         "necessary conditions of the behavioural property, not the behaviour.")
 
 CLAIMED = {
+    'C01': dict(
+        text="Decides the structural clauses of capacity safety: who may "
+             "write allocations; delete -> capacity check -> insert order on "
+             "the same list inside one writer scope; the check's guards, "
+             "normalised to polynomial-relation-zero form, equal the four "
+             "inequalities of the property; reshape ordering; schema amounts "
+             ">= 1. These are the conventions whose loss lets an accepted "
+             "write over-commit, and they hold on every path, which the "
+             "tests' handful of inventories cannot show. Numerical behaviour "
+             "over histories is not decided.",
+        ref='3/C01', technique='who-may-write effect table, CFG dominance, '
+                               'normal-form comparison of guard predicates, '
+                               'constant-folded JSON schemas'),
+    'C04': dict(
+        text="Every write reachable from each of the 42 handler definitions "
+             "lies below a writer scope; at most one transaction per request "
+             "writes invariant-bearing tables; consumers created for a "
+             "request are deleted on every failing exit (typestate over the "
+             "CFG with the inter-procedural may-raise sets); nothing below a "
+             "writer root swallows an error outside a closed table; errors "
+             "are signalled only by raising. Necessary conditions for 'no "
+             "trace of a rejected write'; rollback itself is trusted.",
+        ref='3/C04', technique='SQL effect extraction + transaction-root '
+                               'reachability on the call graph, cleanup '
+                               'pairing over CFG, may-raise analysis'),
+    'C05': dict(
+        text="Compare-and-swap shape of the provider generation increment; "
+             "dominance of the early generation comparison over the mutator "
+             "on the same object in the five generation-carrying handlers; "
+             "every ConcurrentUpdateDetected that can leave a mutator is "
+             "converted to 409 placement.concurrent_update (inter-procedural "
+             "may-raise over all 16 writer handler definitions). Together "
+             "with DBMS atomicity these are the conditions the schedule "
+             "statement rests on.",
+        ref='3/C05', technique='statement-shape matching on the SQL builder, '
+                               'CFG dominance, may-raise escape analysis'),
+    'C06': dict(
+        text="CAS shape of the consumer increment; under the 1.28 gate every "
+             "consumer loaded from the database reaches the write only "
+             "through a raising generation comparison (including the lost "
+             "creation race); the consumer object that is CAS'd is the one "
+             "that was compared (dataflow of Allocation.consumer); every "
+             "visited consumer is incremented inside the write scope.",
+        ref='3/C06', technique='CFG must-pass queries, gate-bound flag '
+                               'tracing, object-identity dataflow'),
+    'C08': dict(
+        text="Closed table of DELETE sites; each delete of an inventory, "
+             "provider, class or trait dominated by its in-use guard on the "
+             "same key in the same scope; provider delete cascades; ids "
+             "written come from loaded objects; in-use exceptions mapped to "
+             "409/400 in every handler that can reach them.",
+        ref='3/C08', technique='effect table (who-may-delete), guard '
+                               'dominance on the CFG, may-raise status '
+                               'mapping'),
+    'C10': dict(
+        text="Every CFG path from a write of inventories / trait or "
+             "aggregate associations to the normal exit of its writer-scope "
+             "function passes increment_generation on the provider "
+             "parameter; the aggregate flag is bound to the 1.19 gate; the "
+             "allocation write increments all visited providers and "
+             "consumers; no other statement writes a generation column; GET "
+             "handlers reach no write effect; responses read the generation "
+             "from the mutated object.",
+        ref='3/C10', technique='must-pass-through on per-function CFGs over '
+                               'SQL effects, zero-match who-may-write rule '
+                               'with positive control'),
     'C16': dict(
         text="Exhaustive over all 37 route/method pairs and all 42 handler "
              "definitions: route table <-> documented policy operations <-> "
